@@ -123,6 +123,15 @@ pub fn pool() -> Vec<String> {
         "@a{1/0} @b{2 1/0} @c{99999999999/2} then @d{1/2%cup} and @e{1 1/2} and @f{3/4%g}",
         "Add the @{} to the bowl.\n\nWait ~{} and then add @water{1/0%l}.\n",
         "@a{1%kg} @&a{2%l} @&a{3%cups} @&a{100%g} @&a{1%pinch} @&a{2%°C}",
+        // refused values that are made of several text fragments (a comment or an escape inside): anything computed from
+        // the memory address of a temporary copy differs from process to process
+        ">> servings: two [- or three -] people\n\nMix @flour{200%g} and @water{100%ml}.\n",
+        ">> time: a \\> while [- c -] longer\n>> locale: e [- c -] n\n>> [mode]: bo [- c -] gus\n>> [duplicate]: n\\ew\nstep",
+        "---\ntime: soon\nservings: a|b\n---\n>> [mode]: s [- x -] t\nstep",
+        // a dangling reference next to several equally close names; text in components mode; hints
+        "Dice the @tomato{2} and the @potato{3}.\n\nFry the @&totato{} until golden.\n",
+        ">> [mode]: components\n@flour{500%g} and @water{300%ml}\n>> [mode]: default\n\nMix the @&flour{} with the @&water{}.\n",
+        "@a{} @b{} @c{} @&d{} @&e{} @&f{}",
     ] {
         v.push(s.to_string());
     }
